@@ -13,6 +13,7 @@ package optics
 //@ interface Lens
 //@   ghostmethod get(s S) : A
 //@   ghostmethod put(s S, a A) : S
+//@   ghostmethod foff() : Int
 //@   method Get
 //@     requires $1 != nil
 //@     ensures reads_focus: result == self.get(deref($1))
@@ -144,6 +145,519 @@ package optics
 //@ rawlemma bimap_putput: (=> (and lawfulA (forall ((a LA)) (= (cm (fm a)) a)) (forall ((b LB)) (= (fm (cm b)) b))) (forall ((s LS) (v LB) (w LB)) (= (puta (puta s (cm v)) (cm w)) (puta s (cm w)))))
 //@ rawlemma iso_roundtrip_restores_source: (=> (and lawfulA lawfulT) (forall ((s LS) (t LT)) (= (puta s (gett (putt t (geta s)))) s)))
 //@ rawlemma iso_roundtrip_target_focus: (=> (and lawfulA lawfulT) (forall ((s LS) (t LT)) (= (gett (putt t (geta s))) (geta s))))
+
+
+// ---- field lenses over struct memory (C01, C02) ----
+//
+// A struct value is a record of its fields: fget/fput at a location (offset, field type).
+// The unsafe access of lens.Get/Put is such an access under the obligation
+// safety:validLoc - the location is a field of the struct type, of exactly the accessed
+// type, reached without crossing a pointer. That is the object invariant of *lens,
+// established at derivation (NewLens / NewReflector check it or panic).
+
+//@ pred loc(e) = e.RootOffs + e.StructField.Offset
+
+//@ func focusable
+//@   props C01 C02
+//@   opt lemmas=drop_nth,drop_len
+//@   ensures result == validloc(cat, offset, ft)
+//@   loop 0 invariant 0 <= i && i <= len(fieldsof(cat)) && isstruct(cat) && validfield(drop(i, fieldsof(cat)), offset, ft) == validfield(fieldsof(cat), offset, ft)
+
+//@ type *lens implements Lens
+//@   opt props = C01 C02
+//@   objinv validloc(rtypeof(S), self.Type.StructField.Offset + self.Type.RootOffs, rtypeof(A))
+//@   model get(self, s) = fget(s, self.Type.StructField.Offset + self.Type.RootOffs, A)
+//@   model put(self, s, a) = fput(s, self.Type.StructField.Offset + self.Type.RootOffs, a)
+//@   model foff(self) = self.Type.StructField.Offset + self.Type.RootOffs
+//@   model roff(self) = self.Type.StructField.Offset + self.Type.RootOffs
+
+//@ func (*lens) Put
+//@   opt via=subtype
+//@   opt overflow=off
+//@ func (*lens) Get
+//@   opt via=subtype
+//@   opt overflow=off
+
+// Reflector: anything but a pointer to the container type panics and modifies nothing
+//@ func (*lens) Putt
+//@   props C01 C02
+//@   opt overflow=off
+//@   requires self != nil && validloc(rtypeof(S), self.Type.StructField.Offset + self.Type.RootOffs, rtypeof(A))
+//@   panics_when !dynptr(s, S)
+//@   ensures same_value: result == s
+//@   ensures writes_focus: deref(asptr(s, S)) == fput(old(deref(asptr(s, S))), self.Type.StructField.Offset + self.Type.RootOffs, a)
+
+//@ func (*lens) Gett
+//@   props C01 C02
+//@   opt overflow=off
+//@   requires self != nil && validloc(rtypeof(S), self.Type.StructField.Offset + self.Type.RootOffs, rtypeof(A))
+//@   panics_when !dynptr(s, S)
+//@   ensures reads_focus: result == fget(deref(asptr(s, S)), self.Type.StructField.Offset + self.Type.RootOffs, A)
+
+// derivation returns a lens on exactly that entry - a field of identical type inside the
+// struct - or panics
+//@ func NewLens
+//@   props C01 C02
+//@   opt overflow=off
+//@   panics_when t.StructField.Type != rtypeof(A) || !validloc(rtypeof(S), loc(t), rtypeof(A))
+//@   ensures result != nil
+//@   ensures field_offset: result.foff() == loc(t)
+//@   ensures focus_is_that_field: forall s S :: result.get(s) == fget(s, result.foff(), A)
+//@   ensures writes_that_field: forall s S, v A :: result.put(s, v) == fput(s, result.foff(), v)
+
+//@ interface Reflector
+//@   ghostmethod roff() : Int
+
+//@ type *lens implements Reflector
+//@   opt props = C99
+
+//@ func NewReflector
+//@   props C01 C02
+//@   opt overflow=off
+//@   panics_when t.StructField.Type != rtypeof(A) || !validloc(rtypeof(S), loc(t), rtypeof(A))
+//@   ensures result != nil
+//@   ensures focus_is_that_field: result.roff() == loc(t)
+
+//@ func ForProduct1
+//@   props C01 C02
+//@   opt overflow=off
+//@   opt lemmas=nth_take,len_take
+//@   ghost all := flatten(fieldsof(pureof(rtypeof(T))), 0, [])
+//@   panics_when true
+//@   ensures result != nil
+//@   ensures focus_1_by_type: len(attr) == 0 ==> result.foff() == loc(firsttype(all, rtypeof(A)))
+//@   ensures focus_1_by_name: len(attr) > 0 ==> result.foff() == loc(firstname(all, attr[0]))
+//@   ensures reads_and_writes_that_field_1: (forall s T :: result.get(s) == fget(s, result.foff(), A)) && (forall s T, v A :: result.put(s, v) == fput(s, result.foff(), v))
+
+//@ func ForSpectrum1
+//@   props C01 C02
+//@   opt overflow=off
+//@   opt lemmas=nth_take,len_take
+//@   ghost all := flatten(fieldsof(pureof(rtypeof(T))), 0, [])
+//@   panics_when true
+//@   ensures result != nil
+//@   ensures focus_1_by_type: len(attr) == 0 ==> result.roff() == loc(firsttype(all, rtypeof(A)))
+//@   ensures focus_1_by_name: len(attr) > 0 ==> result.roff() == loc(firstname(all, attr[0]))
+
+//@ func ForProduct2
+//@   props C01 C02
+//@   opt overflow=off
+//@   opt lemmas=nth_take,len_take
+//@   ghost all := flatten(fieldsof(pureof(rtypeof(T))), 0, [])
+//@   panics_when true
+//@   ensures result != nil
+//@   ensures focus_1_by_type: len(attr) == 0 ==> result.foff() == loc(firsttype(all, rtypeof(A)))
+//@   ensures focus_1_by_name: len(attr) > 0 ==> result.foff() == loc(firstname(all, attr[0]))
+//@   ensures reads_and_writes_that_field_1: (forall s T :: result.get(s) == fget(s, result.foff(), A)) && (forall s T, v A :: result.put(s, v) == fput(s, result.foff(), v))
+//@   ensures result1 != nil
+//@   ensures focus_2_by_type: len(attr) == 0 ==> result1.foff() == loc(firsttype(all, rtypeof(B)))
+//@   ensures focus_2_by_name: len(attr) > 0 ==> result1.foff() == loc(firstname(all, attr[1]))
+//@   ensures reads_and_writes_that_field_2: (forall s T :: result1.get(s) == fget(s, result1.foff(), B)) && (forall s T, v B :: result1.put(s, v) == fput(s, result1.foff(), v))
+
+//@ func ForSpectrum2
+//@   props C01 C02
+//@   opt overflow=off
+//@   opt lemmas=nth_take,len_take
+//@   ghost all := flatten(fieldsof(pureof(rtypeof(T))), 0, [])
+//@   panics_when true
+//@   ensures result != nil
+//@   ensures focus_1_by_type: len(attr) == 0 ==> result.roff() == loc(firsttype(all, rtypeof(A)))
+//@   ensures focus_1_by_name: len(attr) > 0 ==> result.roff() == loc(firstname(all, attr[0]))
+//@   ensures result1 != nil
+//@   ensures focus_2_by_type: len(attr) == 0 ==> result1.roff() == loc(firsttype(all, rtypeof(B)))
+//@   ensures focus_2_by_name: len(attr) > 0 ==> result1.roff() == loc(firstname(all, attr[1]))
+
+//@ func ForProduct3
+//@   props C01 C02
+//@   opt overflow=off
+//@   opt lemmas=nth_take,len_take
+//@   ghost all := flatten(fieldsof(pureof(rtypeof(T))), 0, [])
+//@   panics_when true
+//@   ensures result != nil
+//@   ensures focus_1_by_type: len(attr) == 0 ==> result.foff() == loc(firsttype(all, rtypeof(A)))
+//@   ensures focus_1_by_name: len(attr) > 0 ==> result.foff() == loc(firstname(all, attr[0]))
+//@   ensures reads_and_writes_that_field_1: (forall s T :: result.get(s) == fget(s, result.foff(), A)) && (forall s T, v A :: result.put(s, v) == fput(s, result.foff(), v))
+//@   ensures result1 != nil
+//@   ensures focus_2_by_type: len(attr) == 0 ==> result1.foff() == loc(firsttype(all, rtypeof(B)))
+//@   ensures focus_2_by_name: len(attr) > 0 ==> result1.foff() == loc(firstname(all, attr[1]))
+//@   ensures reads_and_writes_that_field_2: (forall s T :: result1.get(s) == fget(s, result1.foff(), B)) && (forall s T, v B :: result1.put(s, v) == fput(s, result1.foff(), v))
+//@   ensures result2 != nil
+//@   ensures focus_3_by_type: len(attr) == 0 ==> result2.foff() == loc(firsttype(all, rtypeof(C)))
+//@   ensures focus_3_by_name: len(attr) > 0 ==> result2.foff() == loc(firstname(all, attr[2]))
+//@   ensures reads_and_writes_that_field_3: (forall s T :: result2.get(s) == fget(s, result2.foff(), C)) && (forall s T, v C :: result2.put(s, v) == fput(s, result2.foff(), v))
+
+//@ func ForSpectrum3
+//@   props C01 C02
+//@   opt overflow=off
+//@   opt lemmas=nth_take,len_take
+//@   ghost all := flatten(fieldsof(pureof(rtypeof(T))), 0, [])
+//@   panics_when true
+//@   ensures result != nil
+//@   ensures focus_1_by_type: len(attr) == 0 ==> result.roff() == loc(firsttype(all, rtypeof(A)))
+//@   ensures focus_1_by_name: len(attr) > 0 ==> result.roff() == loc(firstname(all, attr[0]))
+//@   ensures result1 != nil
+//@   ensures focus_2_by_type: len(attr) == 0 ==> result1.roff() == loc(firsttype(all, rtypeof(B)))
+//@   ensures focus_2_by_name: len(attr) > 0 ==> result1.roff() == loc(firstname(all, attr[1]))
+//@   ensures result2 != nil
+//@   ensures focus_3_by_type: len(attr) == 0 ==> result2.roff() == loc(firsttype(all, rtypeof(C)))
+//@   ensures focus_3_by_name: len(attr) > 0 ==> result2.roff() == loc(firstname(all, attr[2]))
+
+//@ func ForProduct4
+//@   props C01 C02
+//@   opt overflow=off
+//@   opt lemmas=nth_take,len_take
+//@   ghost all := flatten(fieldsof(pureof(rtypeof(T))), 0, [])
+//@   panics_when true
+//@   ensures result != nil
+//@   ensures focus_1_by_type: len(attr) == 0 ==> result.foff() == loc(firsttype(all, rtypeof(A)))
+//@   ensures focus_1_by_name: len(attr) > 0 ==> result.foff() == loc(firstname(all, attr[0]))
+//@   ensures reads_and_writes_that_field_1: (forall s T :: result.get(s) == fget(s, result.foff(), A)) && (forall s T, v A :: result.put(s, v) == fput(s, result.foff(), v))
+//@   ensures result1 != nil
+//@   ensures focus_2_by_type: len(attr) == 0 ==> result1.foff() == loc(firsttype(all, rtypeof(B)))
+//@   ensures focus_2_by_name: len(attr) > 0 ==> result1.foff() == loc(firstname(all, attr[1]))
+//@   ensures reads_and_writes_that_field_2: (forall s T :: result1.get(s) == fget(s, result1.foff(), B)) && (forall s T, v B :: result1.put(s, v) == fput(s, result1.foff(), v))
+//@   ensures result2 != nil
+//@   ensures focus_3_by_type: len(attr) == 0 ==> result2.foff() == loc(firsttype(all, rtypeof(C)))
+//@   ensures focus_3_by_name: len(attr) > 0 ==> result2.foff() == loc(firstname(all, attr[2]))
+//@   ensures reads_and_writes_that_field_3: (forall s T :: result2.get(s) == fget(s, result2.foff(), C)) && (forall s T, v C :: result2.put(s, v) == fput(s, result2.foff(), v))
+//@   ensures result3 != nil
+//@   ensures focus_4_by_type: len(attr) == 0 ==> result3.foff() == loc(firsttype(all, rtypeof(D)))
+//@   ensures focus_4_by_name: len(attr) > 0 ==> result3.foff() == loc(firstname(all, attr[3]))
+//@   ensures reads_and_writes_that_field_4: (forall s T :: result3.get(s) == fget(s, result3.foff(), D)) && (forall s T, v D :: result3.put(s, v) == fput(s, result3.foff(), v))
+
+//@ func ForSpectrum4
+//@   props C01 C02
+//@   opt overflow=off
+//@   opt lemmas=nth_take,len_take
+//@   ghost all := flatten(fieldsof(pureof(rtypeof(T))), 0, [])
+//@   panics_when true
+//@   ensures result != nil
+//@   ensures focus_1_by_type: len(attr) == 0 ==> result.roff() == loc(firsttype(all, rtypeof(A)))
+//@   ensures focus_1_by_name: len(attr) > 0 ==> result.roff() == loc(firstname(all, attr[0]))
+//@   ensures result1 != nil
+//@   ensures focus_2_by_type: len(attr) == 0 ==> result1.roff() == loc(firsttype(all, rtypeof(B)))
+//@   ensures focus_2_by_name: len(attr) > 0 ==> result1.roff() == loc(firstname(all, attr[1]))
+//@   ensures result2 != nil
+//@   ensures focus_3_by_type: len(attr) == 0 ==> result2.roff() == loc(firsttype(all, rtypeof(C)))
+//@   ensures focus_3_by_name: len(attr) > 0 ==> result2.roff() == loc(firstname(all, attr[2]))
+//@   ensures result3 != nil
+//@   ensures focus_4_by_type: len(attr) == 0 ==> result3.roff() == loc(firsttype(all, rtypeof(D)))
+//@   ensures focus_4_by_name: len(attr) > 0 ==> result3.roff() == loc(firstname(all, attr[3]))
+
+//@ func ForProduct5
+//@   props C01 C02
+//@   opt overflow=off
+//@   opt lemmas=nth_take,len_take
+//@   ghost all := flatten(fieldsof(pureof(rtypeof(T))), 0, [])
+//@   panics_when true
+//@   ensures result != nil
+//@   ensures focus_1_by_type: len(attr) == 0 ==> result.foff() == loc(firsttype(all, rtypeof(A)))
+//@   ensures focus_1_by_name: len(attr) > 0 ==> result.foff() == loc(firstname(all, attr[0]))
+//@   ensures reads_and_writes_that_field_1: (forall s T :: result.get(s) == fget(s, result.foff(), A)) && (forall s T, v A :: result.put(s, v) == fput(s, result.foff(), v))
+//@   ensures result1 != nil
+//@   ensures focus_2_by_type: len(attr) == 0 ==> result1.foff() == loc(firsttype(all, rtypeof(B)))
+//@   ensures focus_2_by_name: len(attr) > 0 ==> result1.foff() == loc(firstname(all, attr[1]))
+//@   ensures reads_and_writes_that_field_2: (forall s T :: result1.get(s) == fget(s, result1.foff(), B)) && (forall s T, v B :: result1.put(s, v) == fput(s, result1.foff(), v))
+//@   ensures result2 != nil
+//@   ensures focus_3_by_type: len(attr) == 0 ==> result2.foff() == loc(firsttype(all, rtypeof(C)))
+//@   ensures focus_3_by_name: len(attr) > 0 ==> result2.foff() == loc(firstname(all, attr[2]))
+//@   ensures reads_and_writes_that_field_3: (forall s T :: result2.get(s) == fget(s, result2.foff(), C)) && (forall s T, v C :: result2.put(s, v) == fput(s, result2.foff(), v))
+//@   ensures result3 != nil
+//@   ensures focus_4_by_type: len(attr) == 0 ==> result3.foff() == loc(firsttype(all, rtypeof(D)))
+//@   ensures focus_4_by_name: len(attr) > 0 ==> result3.foff() == loc(firstname(all, attr[3]))
+//@   ensures reads_and_writes_that_field_4: (forall s T :: result3.get(s) == fget(s, result3.foff(), D)) && (forall s T, v D :: result3.put(s, v) == fput(s, result3.foff(), v))
+//@   ensures result4 != nil
+//@   ensures focus_5_by_type: len(attr) == 0 ==> result4.foff() == loc(firsttype(all, rtypeof(E)))
+//@   ensures focus_5_by_name: len(attr) > 0 ==> result4.foff() == loc(firstname(all, attr[4]))
+//@   ensures reads_and_writes_that_field_5: (forall s T :: result4.get(s) == fget(s, result4.foff(), E)) && (forall s T, v E :: result4.put(s, v) == fput(s, result4.foff(), v))
+
+//@ func ForSpectrum5
+//@   props C01 C02
+//@   opt overflow=off
+//@   opt lemmas=nth_take,len_take
+//@   ghost all := flatten(fieldsof(pureof(rtypeof(T))), 0, [])
+//@   panics_when true
+//@   ensures result != nil
+//@   ensures focus_1_by_type: len(attr) == 0 ==> result.roff() == loc(firsttype(all, rtypeof(A)))
+//@   ensures focus_1_by_name: len(attr) > 0 ==> result.roff() == loc(firstname(all, attr[0]))
+//@   ensures result1 != nil
+//@   ensures focus_2_by_type: len(attr) == 0 ==> result1.roff() == loc(firsttype(all, rtypeof(B)))
+//@   ensures focus_2_by_name: len(attr) > 0 ==> result1.roff() == loc(firstname(all, attr[1]))
+//@   ensures result2 != nil
+//@   ensures focus_3_by_type: len(attr) == 0 ==> result2.roff() == loc(firsttype(all, rtypeof(C)))
+//@   ensures focus_3_by_name: len(attr) > 0 ==> result2.roff() == loc(firstname(all, attr[2]))
+//@   ensures result3 != nil
+//@   ensures focus_4_by_type: len(attr) == 0 ==> result3.roff() == loc(firsttype(all, rtypeof(D)))
+//@   ensures focus_4_by_name: len(attr) > 0 ==> result3.roff() == loc(firstname(all, attr[3]))
+//@   ensures result4 != nil
+//@   ensures focus_5_by_type: len(attr) == 0 ==> result4.roff() == loc(firsttype(all, rtypeof(E)))
+//@   ensures focus_5_by_name: len(attr) > 0 ==> result4.roff() == loc(firstname(all, attr[4]))
+
+//@ func ForProduct6
+//@   props C01 C02
+//@   opt overflow=off
+//@   opt lemmas=nth_take,len_take
+//@   ghost all := flatten(fieldsof(pureof(rtypeof(T))), 0, [])
+//@   panics_when true
+//@   ensures result != nil
+//@   ensures focus_1_by_type: len(attr) == 0 ==> result.foff() == loc(firsttype(all, rtypeof(A)))
+//@   ensures focus_1_by_name: len(attr) > 0 ==> result.foff() == loc(firstname(all, attr[0]))
+//@   ensures reads_and_writes_that_field_1: (forall s T :: result.get(s) == fget(s, result.foff(), A)) && (forall s T, v A :: result.put(s, v) == fput(s, result.foff(), v))
+//@   ensures result1 != nil
+//@   ensures focus_2_by_type: len(attr) == 0 ==> result1.foff() == loc(firsttype(all, rtypeof(B)))
+//@   ensures focus_2_by_name: len(attr) > 0 ==> result1.foff() == loc(firstname(all, attr[1]))
+//@   ensures reads_and_writes_that_field_2: (forall s T :: result1.get(s) == fget(s, result1.foff(), B)) && (forall s T, v B :: result1.put(s, v) == fput(s, result1.foff(), v))
+//@   ensures result2 != nil
+//@   ensures focus_3_by_type: len(attr) == 0 ==> result2.foff() == loc(firsttype(all, rtypeof(C)))
+//@   ensures focus_3_by_name: len(attr) > 0 ==> result2.foff() == loc(firstname(all, attr[2]))
+//@   ensures reads_and_writes_that_field_3: (forall s T :: result2.get(s) == fget(s, result2.foff(), C)) && (forall s T, v C :: result2.put(s, v) == fput(s, result2.foff(), v))
+//@   ensures result3 != nil
+//@   ensures focus_4_by_type: len(attr) == 0 ==> result3.foff() == loc(firsttype(all, rtypeof(D)))
+//@   ensures focus_4_by_name: len(attr) > 0 ==> result3.foff() == loc(firstname(all, attr[3]))
+//@   ensures reads_and_writes_that_field_4: (forall s T :: result3.get(s) == fget(s, result3.foff(), D)) && (forall s T, v D :: result3.put(s, v) == fput(s, result3.foff(), v))
+//@   ensures result4 != nil
+//@   ensures focus_5_by_type: len(attr) == 0 ==> result4.foff() == loc(firsttype(all, rtypeof(E)))
+//@   ensures focus_5_by_name: len(attr) > 0 ==> result4.foff() == loc(firstname(all, attr[4]))
+//@   ensures reads_and_writes_that_field_5: (forall s T :: result4.get(s) == fget(s, result4.foff(), E)) && (forall s T, v E :: result4.put(s, v) == fput(s, result4.foff(), v))
+//@   ensures result5 != nil
+//@   ensures focus_6_by_type: len(attr) == 0 ==> result5.foff() == loc(firsttype(all, rtypeof(F)))
+//@   ensures focus_6_by_name: len(attr) > 0 ==> result5.foff() == loc(firstname(all, attr[5]))
+//@   ensures reads_and_writes_that_field_6: (forall s T :: result5.get(s) == fget(s, result5.foff(), F)) && (forall s T, v F :: result5.put(s, v) == fput(s, result5.foff(), v))
+
+//@ func ForSpectrum6
+//@   props C01 C02
+//@   opt overflow=off
+//@   opt lemmas=nth_take,len_take
+//@   ghost all := flatten(fieldsof(pureof(rtypeof(T))), 0, [])
+//@   panics_when true
+//@   ensures result != nil
+//@   ensures focus_1_by_type: len(attr) == 0 ==> result.roff() == loc(firsttype(all, rtypeof(A)))
+//@   ensures focus_1_by_name: len(attr) > 0 ==> result.roff() == loc(firstname(all, attr[0]))
+//@   ensures result1 != nil
+//@   ensures focus_2_by_type: len(attr) == 0 ==> result1.roff() == loc(firsttype(all, rtypeof(B)))
+//@   ensures focus_2_by_name: len(attr) > 0 ==> result1.roff() == loc(firstname(all, attr[1]))
+//@   ensures result2 != nil
+//@   ensures focus_3_by_type: len(attr) == 0 ==> result2.roff() == loc(firsttype(all, rtypeof(C)))
+//@   ensures focus_3_by_name: len(attr) > 0 ==> result2.roff() == loc(firstname(all, attr[2]))
+//@   ensures result3 != nil
+//@   ensures focus_4_by_type: len(attr) == 0 ==> result3.roff() == loc(firsttype(all, rtypeof(D)))
+//@   ensures focus_4_by_name: len(attr) > 0 ==> result3.roff() == loc(firstname(all, attr[3]))
+//@   ensures result4 != nil
+//@   ensures focus_5_by_type: len(attr) == 0 ==> result4.roff() == loc(firsttype(all, rtypeof(E)))
+//@   ensures focus_5_by_name: len(attr) > 0 ==> result4.roff() == loc(firstname(all, attr[4]))
+//@   ensures result5 != nil
+//@   ensures focus_6_by_type: len(attr) == 0 ==> result5.roff() == loc(firsttype(all, rtypeof(F)))
+//@   ensures focus_6_by_name: len(attr) > 0 ==> result5.roff() == loc(firstname(all, attr[5]))
+
+//@ func ForProduct7
+//@   props C01 C02
+//@   opt overflow=off
+//@   opt lemmas=nth_take,len_take
+//@   ghost all := flatten(fieldsof(pureof(rtypeof(T))), 0, [])
+//@   panics_when true
+//@   ensures result != nil
+//@   ensures focus_1_by_type: len(attr) == 0 ==> result.foff() == loc(firsttype(all, rtypeof(A)))
+//@   ensures focus_1_by_name: len(attr) > 0 ==> result.foff() == loc(firstname(all, attr[0]))
+//@   ensures reads_and_writes_that_field_1: (forall s T :: result.get(s) == fget(s, result.foff(), A)) && (forall s T, v A :: result.put(s, v) == fput(s, result.foff(), v))
+//@   ensures result1 != nil
+//@   ensures focus_2_by_type: len(attr) == 0 ==> result1.foff() == loc(firsttype(all, rtypeof(B)))
+//@   ensures focus_2_by_name: len(attr) > 0 ==> result1.foff() == loc(firstname(all, attr[1]))
+//@   ensures reads_and_writes_that_field_2: (forall s T :: result1.get(s) == fget(s, result1.foff(), B)) && (forall s T, v B :: result1.put(s, v) == fput(s, result1.foff(), v))
+//@   ensures result2 != nil
+//@   ensures focus_3_by_type: len(attr) == 0 ==> result2.foff() == loc(firsttype(all, rtypeof(C)))
+//@   ensures focus_3_by_name: len(attr) > 0 ==> result2.foff() == loc(firstname(all, attr[2]))
+//@   ensures reads_and_writes_that_field_3: (forall s T :: result2.get(s) == fget(s, result2.foff(), C)) && (forall s T, v C :: result2.put(s, v) == fput(s, result2.foff(), v))
+//@   ensures result3 != nil
+//@   ensures focus_4_by_type: len(attr) == 0 ==> result3.foff() == loc(firsttype(all, rtypeof(D)))
+//@   ensures focus_4_by_name: len(attr) > 0 ==> result3.foff() == loc(firstname(all, attr[3]))
+//@   ensures reads_and_writes_that_field_4: (forall s T :: result3.get(s) == fget(s, result3.foff(), D)) && (forall s T, v D :: result3.put(s, v) == fput(s, result3.foff(), v))
+//@   ensures result4 != nil
+//@   ensures focus_5_by_type: len(attr) == 0 ==> result4.foff() == loc(firsttype(all, rtypeof(E)))
+//@   ensures focus_5_by_name: len(attr) > 0 ==> result4.foff() == loc(firstname(all, attr[4]))
+//@   ensures reads_and_writes_that_field_5: (forall s T :: result4.get(s) == fget(s, result4.foff(), E)) && (forall s T, v E :: result4.put(s, v) == fput(s, result4.foff(), v))
+//@   ensures result5 != nil
+//@   ensures focus_6_by_type: len(attr) == 0 ==> result5.foff() == loc(firsttype(all, rtypeof(F)))
+//@   ensures focus_6_by_name: len(attr) > 0 ==> result5.foff() == loc(firstname(all, attr[5]))
+//@   ensures reads_and_writes_that_field_6: (forall s T :: result5.get(s) == fget(s, result5.foff(), F)) && (forall s T, v F :: result5.put(s, v) == fput(s, result5.foff(), v))
+//@   ensures result6 != nil
+//@   ensures focus_7_by_type: len(attr) == 0 ==> result6.foff() == loc(firsttype(all, rtypeof(G)))
+//@   ensures focus_7_by_name: len(attr) > 0 ==> result6.foff() == loc(firstname(all, attr[6]))
+//@   ensures reads_and_writes_that_field_7: (forall s T :: result6.get(s) == fget(s, result6.foff(), G)) && (forall s T, v G :: result6.put(s, v) == fput(s, result6.foff(), v))
+
+//@ func ForSpectrum7
+//@   props C01 C02
+//@   opt overflow=off
+//@   opt lemmas=nth_take,len_take
+//@   ghost all := flatten(fieldsof(pureof(rtypeof(T))), 0, [])
+//@   panics_when true
+//@   ensures result != nil
+//@   ensures focus_1_by_type: len(attr) == 0 ==> result.roff() == loc(firsttype(all, rtypeof(A)))
+//@   ensures focus_1_by_name: len(attr) > 0 ==> result.roff() == loc(firstname(all, attr[0]))
+//@   ensures result1 != nil
+//@   ensures focus_2_by_type: len(attr) == 0 ==> result1.roff() == loc(firsttype(all, rtypeof(B)))
+//@   ensures focus_2_by_name: len(attr) > 0 ==> result1.roff() == loc(firstname(all, attr[1]))
+//@   ensures result2 != nil
+//@   ensures focus_3_by_type: len(attr) == 0 ==> result2.roff() == loc(firsttype(all, rtypeof(C)))
+//@   ensures focus_3_by_name: len(attr) > 0 ==> result2.roff() == loc(firstname(all, attr[2]))
+//@   ensures result3 != nil
+//@   ensures focus_4_by_type: len(attr) == 0 ==> result3.roff() == loc(firsttype(all, rtypeof(D)))
+//@   ensures focus_4_by_name: len(attr) > 0 ==> result3.roff() == loc(firstname(all, attr[3]))
+//@   ensures result4 != nil
+//@   ensures focus_5_by_type: len(attr) == 0 ==> result4.roff() == loc(firsttype(all, rtypeof(E)))
+//@   ensures focus_5_by_name: len(attr) > 0 ==> result4.roff() == loc(firstname(all, attr[4]))
+//@   ensures result5 != nil
+//@   ensures focus_6_by_type: len(attr) == 0 ==> result5.roff() == loc(firsttype(all, rtypeof(F)))
+//@   ensures focus_6_by_name: len(attr) > 0 ==> result5.roff() == loc(firstname(all, attr[5]))
+//@   ensures result6 != nil
+//@   ensures focus_7_by_type: len(attr) == 0 ==> result6.roff() == loc(firsttype(all, rtypeof(G)))
+//@   ensures focus_7_by_name: len(attr) > 0 ==> result6.roff() == loc(firstname(all, attr[6]))
+
+//@ func ForProduct8
+//@   props C01 C02
+//@   opt overflow=off
+//@   opt lemmas=nth_take,len_take
+//@   ghost all := flatten(fieldsof(pureof(rtypeof(T))), 0, [])
+//@   panics_when true
+//@   ensures result != nil
+//@   ensures focus_1_by_type: len(attr) == 0 ==> result.foff() == loc(firsttype(all, rtypeof(A)))
+//@   ensures focus_1_by_name: len(attr) > 0 ==> result.foff() == loc(firstname(all, attr[0]))
+//@   ensures reads_and_writes_that_field_1: (forall s T :: result.get(s) == fget(s, result.foff(), A)) && (forall s T, v A :: result.put(s, v) == fput(s, result.foff(), v))
+//@   ensures result1 != nil
+//@   ensures focus_2_by_type: len(attr) == 0 ==> result1.foff() == loc(firsttype(all, rtypeof(B)))
+//@   ensures focus_2_by_name: len(attr) > 0 ==> result1.foff() == loc(firstname(all, attr[1]))
+//@   ensures reads_and_writes_that_field_2: (forall s T :: result1.get(s) == fget(s, result1.foff(), B)) && (forall s T, v B :: result1.put(s, v) == fput(s, result1.foff(), v))
+//@   ensures result2 != nil
+//@   ensures focus_3_by_type: len(attr) == 0 ==> result2.foff() == loc(firsttype(all, rtypeof(C)))
+//@   ensures focus_3_by_name: len(attr) > 0 ==> result2.foff() == loc(firstname(all, attr[2]))
+//@   ensures reads_and_writes_that_field_3: (forall s T :: result2.get(s) == fget(s, result2.foff(), C)) && (forall s T, v C :: result2.put(s, v) == fput(s, result2.foff(), v))
+//@   ensures result3 != nil
+//@   ensures focus_4_by_type: len(attr) == 0 ==> result3.foff() == loc(firsttype(all, rtypeof(D)))
+//@   ensures focus_4_by_name: len(attr) > 0 ==> result3.foff() == loc(firstname(all, attr[3]))
+//@   ensures reads_and_writes_that_field_4: (forall s T :: result3.get(s) == fget(s, result3.foff(), D)) && (forall s T, v D :: result3.put(s, v) == fput(s, result3.foff(), v))
+//@   ensures result4 != nil
+//@   ensures focus_5_by_type: len(attr) == 0 ==> result4.foff() == loc(firsttype(all, rtypeof(E)))
+//@   ensures focus_5_by_name: len(attr) > 0 ==> result4.foff() == loc(firstname(all, attr[4]))
+//@   ensures reads_and_writes_that_field_5: (forall s T :: result4.get(s) == fget(s, result4.foff(), E)) && (forall s T, v E :: result4.put(s, v) == fput(s, result4.foff(), v))
+//@   ensures result5 != nil
+//@   ensures focus_6_by_type: len(attr) == 0 ==> result5.foff() == loc(firsttype(all, rtypeof(F)))
+//@   ensures focus_6_by_name: len(attr) > 0 ==> result5.foff() == loc(firstname(all, attr[5]))
+//@   ensures reads_and_writes_that_field_6: (forall s T :: result5.get(s) == fget(s, result5.foff(), F)) && (forall s T, v F :: result5.put(s, v) == fput(s, result5.foff(), v))
+//@   ensures result6 != nil
+//@   ensures focus_7_by_type: len(attr) == 0 ==> result6.foff() == loc(firsttype(all, rtypeof(G)))
+//@   ensures focus_7_by_name: len(attr) > 0 ==> result6.foff() == loc(firstname(all, attr[6]))
+//@   ensures reads_and_writes_that_field_7: (forall s T :: result6.get(s) == fget(s, result6.foff(), G)) && (forall s T, v G :: result6.put(s, v) == fput(s, result6.foff(), v))
+//@   ensures result7 != nil
+//@   ensures focus_8_by_type: len(attr) == 0 ==> result7.foff() == loc(firsttype(all, rtypeof(H)))
+//@   ensures focus_8_by_name: len(attr) > 0 ==> result7.foff() == loc(firstname(all, attr[7]))
+//@   ensures reads_and_writes_that_field_8: (forall s T :: result7.get(s) == fget(s, result7.foff(), H)) && (forall s T, v H :: result7.put(s, v) == fput(s, result7.foff(), v))
+
+//@ func ForSpectrum8
+//@   props C01 C02
+//@   opt overflow=off
+//@   opt lemmas=nth_take,len_take
+//@   ghost all := flatten(fieldsof(pureof(rtypeof(T))), 0, [])
+//@   panics_when true
+//@   ensures result != nil
+//@   ensures focus_1_by_type: len(attr) == 0 ==> result.roff() == loc(firsttype(all, rtypeof(A)))
+//@   ensures focus_1_by_name: len(attr) > 0 ==> result.roff() == loc(firstname(all, attr[0]))
+//@   ensures result1 != nil
+//@   ensures focus_2_by_type: len(attr) == 0 ==> result1.roff() == loc(firsttype(all, rtypeof(B)))
+//@   ensures focus_2_by_name: len(attr) > 0 ==> result1.roff() == loc(firstname(all, attr[1]))
+//@   ensures result2 != nil
+//@   ensures focus_3_by_type: len(attr) == 0 ==> result2.roff() == loc(firsttype(all, rtypeof(C)))
+//@   ensures focus_3_by_name: len(attr) > 0 ==> result2.roff() == loc(firstname(all, attr[2]))
+//@   ensures result3 != nil
+//@   ensures focus_4_by_type: len(attr) == 0 ==> result3.roff() == loc(firsttype(all, rtypeof(D)))
+//@   ensures focus_4_by_name: len(attr) > 0 ==> result3.roff() == loc(firstname(all, attr[3]))
+//@   ensures result4 != nil
+//@   ensures focus_5_by_type: len(attr) == 0 ==> result4.roff() == loc(firsttype(all, rtypeof(E)))
+//@   ensures focus_5_by_name: len(attr) > 0 ==> result4.roff() == loc(firstname(all, attr[4]))
+//@   ensures result5 != nil
+//@   ensures focus_6_by_type: len(attr) == 0 ==> result5.roff() == loc(firsttype(all, rtypeof(F)))
+//@   ensures focus_6_by_name: len(attr) > 0 ==> result5.roff() == loc(firstname(all, attr[5]))
+//@   ensures result6 != nil
+//@   ensures focus_7_by_type: len(attr) == 0 ==> result6.roff() == loc(firsttype(all, rtypeof(G)))
+//@   ensures focus_7_by_name: len(attr) > 0 ==> result6.roff() == loc(firstname(all, attr[6]))
+//@   ensures result7 != nil
+//@   ensures focus_8_by_type: len(attr) == 0 ==> result7.roff() == loc(firsttype(all, rtypeof(H)))
+//@   ensures focus_8_by_name: len(attr) > 0 ==> result7.roff() == loc(firstname(all, attr[7]))
+
+//@ func ForProduct9
+//@   props C01 C02
+//@   opt overflow=off
+//@   opt lemmas=nth_take,len_take
+//@   ghost all := flatten(fieldsof(pureof(rtypeof(T))), 0, [])
+//@   panics_when true
+//@   ensures result != nil
+//@   ensures focus_1_by_type: len(attr) == 0 ==> result.foff() == loc(firsttype(all, rtypeof(A)))
+//@   ensures focus_1_by_name: len(attr) > 0 ==> result.foff() == loc(firstname(all, attr[0]))
+//@   ensures reads_and_writes_that_field_1: (forall s T :: result.get(s) == fget(s, result.foff(), A)) && (forall s T, v A :: result.put(s, v) == fput(s, result.foff(), v))
+//@   ensures result1 != nil
+//@   ensures focus_2_by_type: len(attr) == 0 ==> result1.foff() == loc(firsttype(all, rtypeof(B)))
+//@   ensures focus_2_by_name: len(attr) > 0 ==> result1.foff() == loc(firstname(all, attr[1]))
+//@   ensures reads_and_writes_that_field_2: (forall s T :: result1.get(s) == fget(s, result1.foff(), B)) && (forall s T, v B :: result1.put(s, v) == fput(s, result1.foff(), v))
+//@   ensures result2 != nil
+//@   ensures focus_3_by_type: len(attr) == 0 ==> result2.foff() == loc(firsttype(all, rtypeof(C)))
+//@   ensures focus_3_by_name: len(attr) > 0 ==> result2.foff() == loc(firstname(all, attr[2]))
+//@   ensures reads_and_writes_that_field_3: (forall s T :: result2.get(s) == fget(s, result2.foff(), C)) && (forall s T, v C :: result2.put(s, v) == fput(s, result2.foff(), v))
+//@   ensures result3 != nil
+//@   ensures focus_4_by_type: len(attr) == 0 ==> result3.foff() == loc(firsttype(all, rtypeof(D)))
+//@   ensures focus_4_by_name: len(attr) > 0 ==> result3.foff() == loc(firstname(all, attr[3]))
+//@   ensures reads_and_writes_that_field_4: (forall s T :: result3.get(s) == fget(s, result3.foff(), D)) && (forall s T, v D :: result3.put(s, v) == fput(s, result3.foff(), v))
+//@   ensures result4 != nil
+//@   ensures focus_5_by_type: len(attr) == 0 ==> result4.foff() == loc(firsttype(all, rtypeof(E)))
+//@   ensures focus_5_by_name: len(attr) > 0 ==> result4.foff() == loc(firstname(all, attr[4]))
+//@   ensures reads_and_writes_that_field_5: (forall s T :: result4.get(s) == fget(s, result4.foff(), E)) && (forall s T, v E :: result4.put(s, v) == fput(s, result4.foff(), v))
+//@   ensures result5 != nil
+//@   ensures focus_6_by_type: len(attr) == 0 ==> result5.foff() == loc(firsttype(all, rtypeof(F)))
+//@   ensures focus_6_by_name: len(attr) > 0 ==> result5.foff() == loc(firstname(all, attr[5]))
+//@   ensures reads_and_writes_that_field_6: (forall s T :: result5.get(s) == fget(s, result5.foff(), F)) && (forall s T, v F :: result5.put(s, v) == fput(s, result5.foff(), v))
+//@   ensures result6 != nil
+//@   ensures focus_7_by_type: len(attr) == 0 ==> result6.foff() == loc(firsttype(all, rtypeof(G)))
+//@   ensures focus_7_by_name: len(attr) > 0 ==> result6.foff() == loc(firstname(all, attr[6]))
+//@   ensures reads_and_writes_that_field_7: (forall s T :: result6.get(s) == fget(s, result6.foff(), G)) && (forall s T, v G :: result6.put(s, v) == fput(s, result6.foff(), v))
+//@   ensures result7 != nil
+//@   ensures focus_8_by_type: len(attr) == 0 ==> result7.foff() == loc(firsttype(all, rtypeof(H)))
+//@   ensures focus_8_by_name: len(attr) > 0 ==> result7.foff() == loc(firstname(all, attr[7]))
+//@   ensures reads_and_writes_that_field_8: (forall s T :: result7.get(s) == fget(s, result7.foff(), H)) && (forall s T, v H :: result7.put(s, v) == fput(s, result7.foff(), v))
+//@   ensures result8 != nil
+//@   ensures focus_9_by_type: len(attr) == 0 ==> result8.foff() == loc(firsttype(all, rtypeof(I)))
+//@   ensures focus_9_by_name: len(attr) > 0 ==> result8.foff() == loc(firstname(all, attr[8]))
+//@   ensures reads_and_writes_that_field_9: (forall s T :: result8.get(s) == fget(s, result8.foff(), I)) && (forall s T, v I :: result8.put(s, v) == fput(s, result8.foff(), v))
+
+//@ func ForSpectrum9
+//@   props C01 C02
+//@   opt overflow=off
+//@   opt lemmas=nth_take,len_take
+//@   ghost all := flatten(fieldsof(pureof(rtypeof(T))), 0, [])
+//@   panics_when true
+//@   ensures result != nil
+//@   ensures focus_1_by_type: len(attr) == 0 ==> result.roff() == loc(firsttype(all, rtypeof(A)))
+//@   ensures focus_1_by_name: len(attr) > 0 ==> result.roff() == loc(firstname(all, attr[0]))
+//@   ensures result1 != nil
+//@   ensures focus_2_by_type: len(attr) == 0 ==> result1.roff() == loc(firsttype(all, rtypeof(B)))
+//@   ensures focus_2_by_name: len(attr) > 0 ==> result1.roff() == loc(firstname(all, attr[1]))
+//@   ensures result2 != nil
+//@   ensures focus_3_by_type: len(attr) == 0 ==> result2.roff() == loc(firsttype(all, rtypeof(C)))
+//@   ensures focus_3_by_name: len(attr) > 0 ==> result2.roff() == loc(firstname(all, attr[2]))
+//@   ensures result3 != nil
+//@   ensures focus_4_by_type: len(attr) == 0 ==> result3.roff() == loc(firsttype(all, rtypeof(D)))
+//@   ensures focus_4_by_name: len(attr) > 0 ==> result3.roff() == loc(firstname(all, attr[3]))
+//@   ensures result4 != nil
+//@   ensures focus_5_by_type: len(attr) == 0 ==> result4.roff() == loc(firsttype(all, rtypeof(E)))
+//@   ensures focus_5_by_name: len(attr) > 0 ==> result4.roff() == loc(firstname(all, attr[4]))
+//@   ensures result5 != nil
+//@   ensures focus_6_by_type: len(attr) == 0 ==> result5.roff() == loc(firsttype(all, rtypeof(F)))
+//@   ensures focus_6_by_name: len(attr) > 0 ==> result5.roff() == loc(firstname(all, attr[5]))
+//@   ensures result6 != nil
+//@   ensures focus_7_by_type: len(attr) == 0 ==> result6.roff() == loc(firsttype(all, rtypeof(G)))
+//@   ensures focus_7_by_name: len(attr) > 0 ==> result6.roff() == loc(firstname(all, attr[6]))
+//@   ensures result7 != nil
+//@   ensures focus_8_by_type: len(attr) == 0 ==> result7.roff() == loc(firsttype(all, rtypeof(H)))
+//@   ensures focus_8_by_name: len(attr) > 0 ==> result7.roff() == loc(firstname(all, attr[7]))
+//@   ensures result8 != nil
+//@   ensures focus_9_by_type: len(attr) == 0 ==> result8.roff() == loc(firsttype(all, rtypeof(I)))
+//@   ensures focus_9_by_name: len(attr) > 0 ==> result8.roff() == loc(firstname(all, attr[8]))
 
 
 //@ interface Lens2
